@@ -773,3 +773,179 @@ def replay_c03(body):
     d = float(np.max(np.abs(xs - rep)[mask]))
     ok = not S.violations and d <= 1e-8 * max(1.0, float(np.max(np.abs(rep))))
     return ok, f"replay C03 on {mc.kind}: robin/wrap violations={len(S.violations)}, max |solver ghost - reported ghost|={d:.3e} -> {'holds' if ok else 'FAILS'}"
+
+
+# ------------------------------------------------------------------ C01
+
+def vcons(mc):
+    """volume the discrete operators are consistent with (product of line weights), up to a constant"""
+    m = mc.m
+    k = mc.kind
+    ds = [np.asarray(getattr(m.cellsize, nm), dtype=float)[1:-1] for nm in ["_x", "_y", "_z"][:mc.dim]]
+    r = np.asarray(m.cellcenters._x, dtype=float)
+    rf = np.asarray(m.facecenters._x, dtype=float)
+    if k.startswith("cart"):
+        w = [d for d in ds]
+    elif k in ("cyl1", "cyl2", "pol2", "cyl3"):
+        w = [r * ds[0]] + ds[1:]
+    elif k == "sph1":
+        w = [np.diff(rf ** 3) / 3]
+    else:  # sph3
+        w = [r ** 2 * ds[0], np.sin(np.asarray(m.cellcenters._y, dtype=float)) * ds[1], ds[2]]
+    out = w[0]
+    for a in range(1, mc.dim):
+        out = np.multiply.outer(out, w[a])
+    return out
+
+
+def zero_boundary_faces(mc, arrs, axes=None):
+    out = []
+    for ax, a in enumerate(arrs):
+        a = a.copy()
+        if axes is None or ax in axes:
+            sl = [slice(None)] * mc.dim
+            sl[ax] = 0; a[tuple(sl)] = 0.0
+            sl[ax] = -1; a[tuple(sl)] = 0.0
+        out.append(a)
+    return out
+
+
+def periodic_mesh(rng, kind, per_axes):
+    """mesh whose periodic axes are uniform (equal end cells)"""
+    mc0 = rand_mesh(rng, kind, nmax=4)
+    faces = []
+    for ax, f in enumerate(mc0.faces):
+        if ax in per_axes:
+            n = len(f) - 1
+            h = rng.choice([0.25, 0.5, 1.0]) if not (ax >= 1 and kind in ("pol2", "cyl3", "sph3")) else rng.choice([0.25, 0.5])
+            faces.append(f[0] + h * np.arange(n + 1))
+        else:
+            faces.append(f)
+    return MeshCase(kind, faces)
+
+
+def search_c01(rng, n, S=None, kinds=None):
+    S = S or Search("C01")
+    for t in range(n):
+        kind = (kinds or KINDS)[t % len(kinds or KINDS)]
+        mode = ["operator", "closed", "periodic", "explicit", "open1d"][(t // len(kinds or KINDS)) % 5]
+        S.sig(kind, mode)
+        try:
+            if mode == "operator":
+                mc = rand_mesh(rng, kind, nmax=4)
+                x = rand_vals(rng, mc.gshape())
+                term = rng.choice(["diffusion", "convection", "upwind", "tvd", "divergence"])
+                arrs = zero_boundary_faces(mc, rand_face_arrays(rng, mc))
+                fv = make_facevar(mc, arrs)
+                inp = case_of(mc, mode=mode, term=term, face=arrs, cell=x)
+                if term == "diffusion":
+                    r = pf.diffusionTerm(fv) @ x.ravel(); sc = absmat_scale(pf.diffusionTerm(fv), x.ravel())
+                elif term == "convection":
+                    r = pf.convectionTerm(fv) @ x.ravel(); sc = absmat_scale(pf.convectionTerm(fv), x.ravel())
+                elif term == "upwind":
+                    r = pf.convectionUpwindTerm(fv) @ x.ravel(); sc = absmat_scale(pf.convectionUpwindTerm(fv), x.ravel())
+                elif term == "tvd":
+                    with contextlib.redirect_stdout(io.StringIO()):
+                        FL = pf.fluxLimiter(rng.choice(LIMITERS))
+                    r = pf.convectionTVDupwindRHSTerm(fv, full_cellvar(mc, x), FL); sc = np.abs(r) + 1e-300
+                else:
+                    r = pf.divergenceTerm(fv); sc = np.abs(r) + 1e-300
+                ri = interior(mc, r); sci = interior(mc, sc)
+                for label, V in (("cellvolume", np.asarray(mc.m.cellvolume, dtype=float)), ("vcons", vcons(mc))):
+                    tot = float(np.sum(V * ri)); scale = float(np.sum(np.abs(V) * sci))
+                    ok = abs(tot) <= 1e-9 * max(scale, 1e-300)
+                    if label == "cellvolume" and kind == "sph3":
+                        key = "sph3-volume-inconsistent"
+                    else:
+                        key = f"C01:operator:{term}:{kind}:{label}"
+                    S.check(ok, key, f"interior face fluxes of {term} do not cancel in the {label}-weighted sum", {**inp, "weight": label}, tot, 0.0)
+            elif mode == "open1d" :
+                k1 = ["cart1", "cyl1", "sph1"][t % 3]
+                mc = rand_mesh(rng, k1, nmax=5)
+                arrs = rand_face_arrays(rng, mc)
+                F = arrs[0]
+                rf = np.asarray(mc.m.facecenters._x, dtype=float)
+                A = {"cart1": np.ones_like(rf), "cyl1": 2 * np.pi * rf, "sph1": 4 * np.pi * rf ** 2}[k1]
+                r = interior(mc, pf.divergenceTerm(make_facevar(mc, arrs)))
+                V = np.asarray(mc.m.cellvolume, dtype=float)
+                tot = float(np.sum(V * r)); exp = float(A[-1] * F[-1] - A[0] * F[0])
+                sc = float(np.sum(np.abs(V * r))) + abs(exp)
+                S.check(abs(tot - exp) <= 1e-9 * max(sc, 1e-300), f"C01:open:{k1}", "volume-weighted sum of a divergence is not the net flux through the two boundary faces",
+                        case_of(mc, mode=mode, face=arrs), tot, exp)
+            else:
+                per_axes = []
+                if mode == "periodic":
+                    cand = [ax for ax in range(DIM[kind]) if not (ax == 0 and RADIAL[kind]) and not (kind == "sph3" and ax == 1)]
+                    if not cand:
+                        continue
+                    per_axes = [rng.choice(cand)]
+                    mc = periodic_mesh(rng, kind, per_axes)
+                else:
+                    mc = rand_mesh(rng, kind, nmax=4)
+                conv = rng.choice(["none", "central", "upwind", "upwind+tvd"])
+                Darr = [np.abs(a) + 0.25 for a in rand_face_arrays(rng, mc, "pos")]
+                uarr = rand_face_arrays(rng, mc)
+                # closed axes: zero wall-normal velocity; periodic axes: equal end-face coefficients
+                closed_axes = [ax for ax in range(mc.dim) if ax not in per_axes]
+                uarr = zero_boundary_faces(mc, uarr, closed_axes)
+                for ax in per_axes:
+                    for arr in (Darr, uarr):
+                        sl0 = [slice(None)] * mc.dim; sl1 = [slice(None)] * mc.dim
+                        sl0[ax] = 0; sl1[ax] = -1
+                        arr[ax][tuple(sl1)] = arr[ax][tuple(sl0)]
+                bc = BoundaryConditions(mc.m)
+                for ax in per_axes:
+                    getattr(bc, SIDES[2 * ax]).periodic = True
+                    getattr(bc, SIDES[2 * ax + 1]).periodic = True
+                x0 = rand_vals(rng, mc.shape(), "pos")
+                phi = pf.CellVariable(mc.m, x0.copy(), bc)
+                D = make_facevar(mc, Darr); u = make_facevar(mc, uarr)
+                dt = rng.choice([1e-3, 0.1, 1.0, 50.0])
+                alpha = rng.choice([1.0, 2.5])
+                steps = rng.choice([1, 2, 3])
+                inp = case_of(mc, mode=mode, conv=conv, D=Darr, u=uarr, interior=x0, dt=dt, alpha=alpha, steps=steps, periodic_axes=per_axes)
+                V = np.asarray(mc.m.cellvolume, dtype=float)
+                I0 = float(phi.domainIntegral()); Ic0 = float(np.sum(vcons(mc) * np.asarray(phi.value)))
+                with contextlib.redirect_stdout(io.StringIO()):
+                    FL = pf.fluxLimiter("Koren")
+                for _ in range(steps):
+                    if mode == "explicit":
+                        Mx = -pf.diffusionTerm(D)
+                        if conv == "central":
+                            Mx = Mx + pf.convectionTerm(u)
+                        elif conv.startswith("upwind"):
+                            Mx = Mx + pf.convectionUpwindTerm(u)
+                        rhs = -(Mx @ np.asarray(phi._value).ravel())
+                        if conv == "upwind+tvd":
+                            rhs = rhs + pf.convectionTVDupwindRHSTerm(u, phi, FL)
+                        dte = min(dt, 1e-2)
+                        phi = pf.solveExplicitPDE(phi, dte, rhs / alpha)
+                    else:
+                        terms = [pf.transientTerm(phi, dt, alpha), -pf.diffusionTerm(D)]
+                        if conv == "central":
+                            terms.append(pf.convectionTerm(u))
+                        elif conv.startswith("upwind"):
+                            terms.append(pf.convectionUpwindTerm(u))
+                        if conv == "upwind+tvd":
+                            terms.append(pf.convectionTVDupwindRHSTerm(u, phi, FL))
+                        pf.solvePDE(phi, terms)
+                I1 = float(phi.domainIntegral()); Ic1 = float(np.sum(vcons(mc) * np.asarray(phi.value)))
+                sc = float(np.sum(np.abs(V) * (np.abs(x0) + np.abs(np.asarray(phi.value)))))
+                scc = float(np.sum(np.abs(vcons(mc)) * (np.abs(x0) + np.abs(np.asarray(phi.value)))))
+                if not np.all(np.isfinite(np.asarray(phi.value))):
+                    continue
+                ok = abs(I1 - I0) <= 1e-8 * max(sc, 1e-300)
+                okc = abs(Ic1 - Ic0) <= 1e-8 * max(scc, 1e-300)
+                upw_per = bool(per_axes) and conv.startswith("upwind") and any(np.any(uarr[ax] != 0) for ax in per_axes)
+                if upw_per:
+                    key = keyc = "upwind-periodic-nonconservative"
+                else:
+                    key = "sph3-volume-inconsistent" if kind == "sph3" else f"C01:{mode}:{conv}:{kind}"
+                    keyc = f"C01:{mode}:{conv}:{kind}:vcons"
+                S.check(ok, key, f"domainIntegral() changed over {steps} {mode} step(s) of a closed/periodic system", inp, I1 - I0, 0.0)
+                S.check(okc, keyc, f"consistent-volume integral changed over {steps} {mode} step(s) of a closed/periodic system", inp, Ic1 - Ic0, 0.0)
+                if len(S.samples) < 2:
+                    S.samples.append(inp)
+        except Exception as ex:
+            S.check(False, f"C01:{mode}:{kind}:exception", repr(ex), {"kind": kind, "mode": mode}, repr(ex) , "no exception")
+    return S
